@@ -1016,3 +1016,151 @@ func (p *Prog) methodsOfWithEmbedded(pkgShort, typeName string) []string {
 	walk(owner, 0)
 	return res
 }
+
+func init() {
+	wrap := func(id string, extra func(p *Prog, r *Report)) {
+		old := registry[id]
+		registry[id] = func(p *Prog, r *Report) {
+			old(p, r)
+			extra(p, r)
+		}
+	}
+	for id, rule := range map[string]string{"C14": "C14.k", "C13": "C13.k", "C09": "C09.m"} {
+		id, rule := id, rule
+		wrap(id, func(p *Prog, r *Report) {
+			r.Rule(rule, "a registered transaction always reaches its owner: once the registry's Store has succeeded Begin returns the id (or takes the registration back): it has no failure return after the registration, because a transaction nobody holds the id of can never be finished and pins the collector's horizon for the life of the process")
+			c14BeginNeverOrphans(p, r, rule)
+		})
+	}
+	for id, rule := range map[string]string{"C19": "C19.k", "C14": "C14.l"} {
+		id, rule := id, rule
+		wrap(id, func(p *Prog, r *Report) {
+			r.Rule(rule, "any key can be stored: the record encoder fails for a buffer of the wrong length or an id that is not a UUID only - no condition of marshalFile looks at the content of the key (a version record refused at the end of store.Set leaves its content and content record behind, out of reach of every reclaim path)")
+			c19EncoderTakesAnyKey(p, r, rule)
+		})
+	}
+	for id, rule := range map[string]string{"C05": "C05.h", "C18": "C18.f", "C09": "C09.n"} {
+		id, rule := id, rule
+		wrap(id, func(p *Prog, r *Report) {
+			r.Rule(rule, "whether a store keeps the search mirror is decided where the store is built: the WithoutSearch switch is written in composite literals only (a per-key list copies it once, when it is created; a store switched during a bulk load leaves every key loaded then without a mirror for the life of the process, and snapshot readers find nothing)")
+			c18SearchSwitchFixedAtConstruction(p, r, rule)
+		})
+	}
+}
+
+// c14BeginNeverOrphans (seeded C14-A, round 6).
+func c14BeginNeverOrphans(p *Prog, r *Report, rule string) {
+	fi := p.Func(kTxBegin)
+	if fi == nil {
+		r.Undecided(rule, kTxBegin, "", "transaction.Begin not found")
+		return
+	}
+	f := p.FlatInl(fi)
+	sites := f.CallSites(kTxRepoStore)
+	cons := kTxBegin + "#no-failure-after-registration"
+	if len(sites) == 0 {
+		r.Undecided(rule, cons, p.pos(fi.Decl), "the registration (registry Store) was not found in Begin")
+		return
+	}
+	sig := fi.Sig()
+	undo := setOf(f.CallNodes(kTxRepoDelete))
+	bad := ""
+	for _, s := range sites {
+		if s.Kind != "assigned" || s.ErrVar == nil {
+			continue
+		}
+		st := f.ErrStatesFrom(s.Node, s.ErrVar)
+		reach := f.Reach(f.succsOf(s.Node), func(n *GNode) bool { return undo[n.ID] }, nil)
+		for _, sid := range f.succsOf(s.Node) {
+			reach[sid] = true
+		}
+		for _, id := range f.ReturnNodes() {
+			if !reach[id] {
+				continue
+			}
+			if isRet, nilErr := f.returnsNilError(id, sig); !isRet || nilErr {
+				continue
+			}
+			// a failure return: fine while the registration's own error may be non-nil, not otherwise
+			if len(st.at(id)) == 0 {
+				bad = p.pos(f.Nodes[id].Ast)
+			}
+		}
+	}
+	r.Check(bad == "", rule, cons, p.pos(fi.Decl), "after a successful registration Begin only succeeds",
+		"Begin can fail at "+bad+" after the transaction has been registered and without unregistering it: the caller never learns the id, nobody can commit or roll it back, the collector's horizon stays at its sequence number and nothing overwritten or deleted afterwards is ever reclaimed")
+}
+
+// c19EncoderTakesAnyKey (seeded C14-B, round 6).
+func c19EncoderTakesAnyKey(p *Prog, r *Report, rule string) {
+	fi := p.Func(kMarshal)
+	if fi == nil {
+		r.Undecided(rule, kMarshal, "", "marshalFile not found")
+		return
+	}
+	info := fi.Pkg.TypesInfo
+	f := p.FlatInl(fi)
+	bad := ""
+	for _, gn := range f.Nodes {
+		if !gn.IsCond || gn.Ast == nil {
+			continue
+		}
+		ast.Inspect(gn.Ast, func(x ast.Node) bool {
+			// len(f.Key) is the length the buffer is checked against: not a look at the content
+			if c, ok := x.(*ast.CallExpr); ok {
+				if id, isId := c.Fun.(*ast.Ident); isId && id.Name == "len" {
+					return false
+				}
+				if h := p.staticCallee(fi.Pkg, c); h != nil && h.Key == "internal/repository/file.fileLen" {
+					return false
+				}
+			}
+			if sel, ok := x.(*ast.SelectorExpr); ok && sel.Sel.Name == "Key" {
+				if tv, ok := info.Types[sel.X]; ok && strings.HasSuffix(strings.TrimPrefix(tv.Type.String(), "*"), "internal/model.File") {
+					bad = p.pos(gn.Ast) + ": " + types.ExprString(gn.Ast.(ast.Expr))
+				}
+			}
+			return true
+		})
+	}
+	r.Check(bad == "", rule, kMarshal+"#no-condition-on-the-key", p.pos(fi.Decl), "the encoder's conditions look at the buffer length and the ids only",
+		"the record encoder decides by the content of the key ("+bad+"): a key it refuses fails the last of store.Set's three writes, after the content file and the content record exist - they are referenced by no version and survive rollback, every collector pass and a reopen")
+}
+
+// c18SearchSwitchFixedAtConstruction (seeded C05-B, round 6).
+func c18SearchSwitchFixedAtConstruction(p *Prog, r *Report, rule string) {
+	n := 0
+	bad := ""
+	for _, k := range sortedFuncKeys(p) {
+		fi := p.Funcs[k]
+		if fi.Decl == nil || fi.Decl.Body == nil {
+			continue
+		}
+		info := fi.Pkg.TypesInfo
+		ast.Inspect(fi.Decl.Body, func(x ast.Node) bool {
+			switch y := x.(type) {
+			case *ast.KeyValueExpr:
+				if id, ok := y.Key.(*ast.Ident); ok && id.Name == "WithoutSearch" {
+					n++
+				}
+			case *ast.AssignStmt:
+				for _, l := range y.Lhs {
+					if sel, ok := ast.Unparen(l).(*ast.SelectorExpr); ok && sel.Sel.Name == "WithoutSearch" {
+						if fv, ok := info.Uses[sel.Sel].(*types.Var); ok && fv.IsField() {
+							bad = k + " at " + p.pos(y)
+						}
+					}
+				}
+			case *ast.UnaryExpr:
+				if y.Op == token.AND {
+					if sel, ok := ast.Unparen(y.X).(*ast.SelectorExpr); ok && sel.Sel.Name == "WithoutSearch" {
+						bad = k + " at " + p.pos(y) + " (address taken)"
+					}
+				}
+			}
+			return true
+		})
+	}
+	r.Check(bad == "", rule, "core.Transaction.WithoutSearch#written-at-construction-only", "", fmt.Sprintf("the switch is set in %d composite literal(s) and assigned nowhere", n),
+		"the search switch of a store is assigned after construction ("+bad+"): the per-key lists created while it is on never get a search mirror, also for versions pushed later, so every snapshot lookup (RepeatableRead / Serializable) of those keys answers not-found although autocommit readers see the value")
+}
